@@ -137,6 +137,12 @@ pub fn run(tier: Tier) -> CheckResult {
                     continue;
                 }
                 cases.push(GraphCase { n: *n, mask: *mask, root: if (gi + ctx) % 4 == 0 { Root::ReturnOk } else { Root::Param }, ctx, deviate: None, layout, derive_style: (gi + ctx) % 4, zod: true, naming: 0 });
+                // the whole graph reachable through an event payload only (typed parameter and annotated let)
+                if *n <= 3 && ctx <= 2 {
+                    for root in [Root::Event, Root::EventLet] {
+                        cases.push(GraphCase { n: *n, mask: *mask, root, ctx, deviate: None, layout, derive_style: 0, zod: true, naming: (gi + ctx) % 2 * 4 });
+                    }
+                }
                 // the other naming schemes (caseless scripts, names that contain each other, ...) on
                 // the direct, tuple and module-path contexts
                 if *n <= 3 && [0usize, 6, 10].contains(&ctx) && layout == 0 {
@@ -299,7 +305,7 @@ pub fn run(tier: Tier) -> CheckResult {
     res.coverage.set("exhaustive", exhaustive);
     res.coverage.set("hooks_enabled", crate::run::HOOKS_ENABLED);
     res.coverage.set("samples", json!(cases.iter().step_by((cases.len() / 4).max(1)).take(4).collect::<Vec<_>>()));
-    res.coverage.set("rule", format!("states = (labelled DAG on 1..{} nodes [thorough: + 5-node shapes with 3..4 edges], constructor context of the edges [uniform / one deviating], file layout); transitions = one in-process Zod generation per iteration-order schedule at hook sites S1 (files), S5 (topological roots), S6 (per-node dependencies): full product for <= 3 nodes, deviation bound {} beyond; oracle on every run: in the parsed types.ts every schema constant read outside a function body is defined earlier, and all parameter schemas follow all struct/enum schemas; the first run of every state is executed twice to expose uncontrolled nondeterminism. Plus 144 three-type projects (six naming schemes x every assignment of names to roles) in which every type is also used by a command of its own while fields mention dependencies bare, in a tuple and through a module path. Non-trivial = at least one hook site had >= 2 elements to order.", max_n, if tier == Tier::Quick { 1 } else { 2 }));
+    res.coverage.set("rule", format!("states = (labelled DAG on 1..{} nodes [thorough: + 5-node shapes with 3..4 edges], constructor context of the edges [uniform / one deviating], file layout; root = command parameter / return type, or - for up to three nodes - an event payload only); transitions = one in-process Zod generation per iteration-order schedule at hook sites S1 (files), S5 (topological roots), S6 (per-node dependencies): full product for <= 3 nodes, deviation bound {} beyond; oracle on every run: in the parsed types.ts every schema constant read outside a function body is defined earlier, and all parameter schemas follow all struct/enum schemas; the first run of every state is executed twice to expose uncontrolled nondeterminism. Plus 144 three-type projects (six naming schemes x every assignment of names to roles) in which every type is also used by a command of its own while fields mention dependencies bare, in a tuple and through a module path. Non-trivial = at least one hook site had >= 2 elements to order.", max_n, if tier == Tier::Quick { 1 } else { 2 }));
     res.assumptions = vec!["iteration orders are owned through the verif-hooks sites; the sort that follows a hook site normalises the order, so a change that drops the sort is what the schedules expose".into()];
     let _ = c07::ROOTS;
     res
